@@ -16,7 +16,7 @@ FLOORS = {"op=take_scalar": (50, 50), "op=mean": (50, 50), "op=take_axis": (50, 
           "has-0d": (300, 300), "var-dims-reordered": (300, 300), "by-position": (500, 500), "op=construct_misaligned": (20, 20), "op=add_ds_misaligned": (20, 20), "op=concatenate_ds_align": (10, 10),
           "op=take_scalar_keepdims": (50, 50), "op=reindex_right": (50, 50), "op=reindex_left": (50, 50), "op=concatenate_ds_mismatch": (10, 10), "rejects": (5, 5)}
 
-LABELS = {"x": [4, 2, 6], "y": [2.0, 6.0], "z": ["k2", "k6"]}
+LABELS = {"x": [4, 2, 6], "y": [6.0, 2.0], "z": ["k2", "k6"]}      # x shuffled, y decreasing, z increasing (str)
 
 
 def tlc_jobs(tier, seed):
@@ -162,7 +162,7 @@ def _ops(i, ds, ds2, ds3=None):
         if "x" in ds4.dims:
             ds4.axes["x"][:] = [6, 2, 4]
         if "y" in ds4.dims:
-            ds4.axes["y"][:] = [6.0, 2.0]
+            ds4.axes["y"][:] = [2.0, 6.0]
         return (lambda: A.da.concatenate_ds([ds, ds4], axis=d)), (lambda k, v: A.da.concatenate([v, ds4[k]], axis=d))
     if o == "stack_ds":
         return (lambda: A.da.stack_ds([ds, ds2], axis="k", keys=[0, 1])), (lambda k, v: A.da.stack([v, ds2[k]], axis="k", keys=[0, 1]))
@@ -192,7 +192,7 @@ def replay(scn):
         if "x" in ds3.dims:
             ds3.axes["x"][:] = [2, 6, 8]
         if "y" in ds3.dims:
-            ds3.axes["y"][:] = [6.0, 2.0]
+            ds3.axes["y"][:] = [2.0, 6.0]
         dsop, varop = _ops(i, ds, ds2, ds3)
         calls += 1
         what = None
@@ -262,7 +262,7 @@ def _replay_construct(scn):
                 if d == "x":
                     v.axes[d][:] = [2, 8, 4]
                 elif d == "y":
-                    v.axes[d][:] = [6.0, 4.0]
+                    v.axes[d][:] = [2.0, 4.0]
         arrs.append(v)
     keys = list("abcd")[:len(arrs)]
     before = [A.snapshot(v) for v in arrs]
